@@ -1383,6 +1383,36 @@ def with_secret_twins(rng, vals, args):
     return v2, a2
 
 
+def check_threads(ctx, rep, cases, what, nthreads=16, rounds=2):
+    """the same calls from many threads at once (the harness's purity mode): every result must equal the one the sequential pass
+    gave -- what a lock taken with try_lock, a shared scratch buffer or a lazily filled table does under contention shows here"""
+    import subprocess
+    wd = ctx.runner.workdir
+    os.makedirs(wd, exist_ok=True)
+    inp = os.path.join(wd, 'threads.in')
+    open(inp, 'w').write('\n'.join(cases) + '\n')
+    for w in IMPLS:
+        outp = os.path.join(wd, 'threads.%s.out' % w)
+        try:
+            p = subprocess.run([ctx.runner.bins[w], '--out', outp, '--threads', str(nthreads), '--rounds', str(rounds)],
+                               stdin=open(inp), stdout=subprocess.PIPE, stderr=subprocess.PIPE, timeout=900)
+        except subprocess.TimeoutExpired:
+            rep.fail('%s: the concurrent pass did not finish' % what, case=cases[0][:200], executor=w)
+            continue
+        rep.evaluations += len(cases) * nthreads * rounds
+        rep.dist['concurrent'] += len(cases)
+        if p.returncode != 0:
+            rep.fail('%s: the concurrent pass ended with status %s' % (what, p.returncode), case=cases[0][:200], executor=w)
+            continue
+        lines = open(outp).read().split('\n')
+        for l in lines[len(cases):]:
+            if l.startswith('MISMATCH'):
+                f = l.split('\t')
+                rep.fail('%s: a call gave a different result when made from several threads at once' % what, case=cases[int(f[1])][:400],
+                         executor=w, thread=f[2], round=f[3], got=f[4][:200], sequential=lines[int(f[1])][:200])
+                break
+
+
 def hide_args(rng):
     secret = rsecret(rng)
     rv = rbytes(rng, 4)
@@ -1417,6 +1447,7 @@ def run_c11(ctx):
             args[i] = (args[i][0], args[i][1], b'', args[i][3])
     h = ['HIDE\t%s\t%s\t%s\t%s\t%s' % (v, a[0].hex(), a[1].hex(), a[2].hex(), a[3].hex()) for v, a in zip(vals, args)]
     rh = run_compare(ctx, rep, h, ['hide_' + avp_kind(v) for v in vals], lambda c, r: r[:9])
+    check_threads(ctx, rep, [c for c in h if len(c) < 3000][:400], 'hide')
     for w in IMPLS:
         ok = [i for i in range(len(vals)) if rh[w][i].startswith('Ok Hidden(')]
         for i in range(len(vals)):
@@ -1491,6 +1522,7 @@ def run_c12(ctx):
     vals, args = with_secret_twins(rng, vals, args)
     h = ['HIDE\t%s\t%s\t%s\t%s\t%s' % (v, a[0].hex(), a[1].hex(), a[2].hex(), a[3].hex()) for v, a in zip(vals, args)]
     rh = run_compare(ctx, rep, h, ['hide_' + avp_kind(v) for v in vals], lambda c, r: r)
+    check_threads(ctx, rep, [c for c in h if len(c) < 3000][:400], 'hide')
     # third, independent computation (Python, hashlib MD5) of RFC 2661 4.3 from the encoded payload
     pay = ctx.runner.run(['ENCA\t%s\t' % v for v in vals], ('model',))['model']
     for w in IMPLS:
@@ -1600,6 +1632,7 @@ def run_c13(ctx):
     rng = ctx.rng
     cases, tags, must_err, ann = reveal_cases(ctx, ctx.scale(12000, 150000))
     res = run_compare(ctx, rep, cases, tags, lambda c, r: 'RETURNS' if returns(r) else cls(r))
+    check_threads(ctx, rep, [c for c in cases if len(c) < 3000][:600], 'reveal')
     for w in IMPLS:
         for i, c in enumerate(cases):
             r = res[w][i]
